@@ -13,6 +13,7 @@
 import Stfs.Proofs.Replay
 import Stfs.Proofs.PosOps
 import Stfs.Model.Trig
+import Stfs.Gen.Fingerprints
 namespace Stfs.C01
 open Stfs Gen
 
@@ -69,5 +70,15 @@ theorem F01_witness :
 theorem F01_trigger_fires :
     (Trig.eval {} (({} : Sys).runAll {} (histF01.take 8)) (.rename (n!"/a") (n!"/b"))).contains "moveOntoUsedKey" = true := by
   decide
+
+-- MIRRORS-BEGIN (maintained by bin/update-mirrors)
+/-- The parts of the model this file's theorems are about were written by hand against these
+    versions of the functions they mirror (fingerprint of each function's comment-free source,
+    regenerated on every run).  When one of them changes, this obligation fails: the change has
+    to be confirmed harmless by the correspondence, or shows up as its failing input. -/
+theorem model_mirrors_source :
+    [(n!"recovery.indexHeader"), (n!"recovery.Index"), (n!"persisters.MetadataPersister.UpsertHeader"), (n!"persisters.MetadataPersister.UpdateHeaderMetadata"), (n!"persisters.MetadataPersister.MoveHeader"), (n!"persisters.MetadataPersister.DeleteHeader"), (n!"persisters.MetadataPersister.getSanitizedPath")].map Gen.fingerprintOf =
+    [some 1203388063636210460, some 1657455892095054075, some 1475075715614363495, some 1156983867159650422, some 431296354897121277, some 487247875105465038, some 134905088822168908] := by decide
+-- MIRRORS-END
 
 end Stfs.C01
